@@ -240,18 +240,18 @@ extern "C" int engineexport_initialize_grid (
     if     (CompareStr(init_state_processing, "Poisson"))
       {
       std::mt19937 rng(seed);
-      mesh_x.resize(n_meshes*n_species);
+      mesh_x = SpeciesFirstToMeshFirstArray(MkVec<double, double>(mesh_state, n_meshes*n_species), n_species, n_meshes);
       for(size_t i=0; i<mesh_x.size(); i++)
         {
-        mesh_x[i] = (mesh_state[i]>0) ? static_cast<double>(std::poisson_distribution<int>(mesh_state[i])(rng)) : 0.0;
+        mesh_x[i] = (mesh_x[i]>0) ? static_cast<double>(std::poisson_distribution<int>(mesh_x[i])(rng)) : 0.0;
         }
       }
     else if(CompareStr(init_state_processing, "floor"))
       {
-      mesh_x.resize(n_meshes*n_species);
+      mesh_x = SpeciesFirstToMeshFirstArray(MkVec<double, double>(mesh_state, n_meshes*n_species), n_species, n_meshes);
       for(size_t i=0; i<mesh_x.size(); i++)
         {
-        mesh_x[i] = floor(mesh_state[i]);
+        mesh_x[i] = floor(mesh_x[i]);
         }
       }
     else if(CompareStr(init_state_processing, "redist") || (is_stochastic && CompareStr(init_state_processing, "auto")))
@@ -371,18 +371,18 @@ extern "C" int engineexport_initialize_graph (
     if     (CompareStr(init_state_processing, "Poisson"))
       {
       std::mt19937 rng(seed);
-      mesh_x.resize(n_meshes*n_species);
+      mesh_x = SpeciesFirstToMeshFirstArray(MkVec<double, double>(mesh_state, n_meshes*n_species), n_species, n_meshes);
       for(size_t i=0; i<mesh_x.size(); i++)
         {
-        mesh_x[i] = (mesh_state[i]>0) ? static_cast<double>(std::poisson_distribution<int>(mesh_state[i])(rng)) : 0.0;
+        mesh_x[i] = (mesh_x[i]>0) ? static_cast<double>(std::poisson_distribution<int>(mesh_x[i])(rng)) : 0.0;
         }
       }
     else if(CompareStr(init_state_processing, "floor"))
       {
-      mesh_x.resize(n_meshes*n_species);
+      mesh_x = SpeciesFirstToMeshFirstArray(MkVec<double, double>(mesh_state, n_meshes*n_species), n_species, n_meshes);
       for(size_t i=0; i<mesh_x.size(); i++)
         {
-        mesh_x[i] = floor(mesh_state[i]);
+        mesh_x[i] = floor(mesh_x[i]);
         }
       }
     else if(CompareStr(init_state_processing, "redist") || (is_stochastic && CompareStr(init_state_processing, "auto")))
